@@ -24,6 +24,18 @@ def insert_paths(repo):
     return f, paths, oshape, fshape, foff
 
 
+def insert_accumulates(chk, repo, clause, analysed=None):
+    """Inserting *adds* to what the array already holds: every write into out is an in-place addition
+    (a plain store would drop the contributions of the fields inserted before)."""
+    f, paths = analysed if analysed is not None else insert_paths(repo)[:2]
+    not_add = [(p, e) for p in returns(paths) for e in p.writes()
+               if root_sym(e.target) == 'out' and not (e.data.get('how') == 'setitem' and e.data.get('aug') == 'add')]
+    chk.ob(clause, 'E-accumulate', 'field.insert', 'every write into out is `out[...] += value`', not not_add,
+           '; '.join(f'{e.data.get("how")} {fmt(e.data.get("value"))[:80]} [{conds_str(p)[-60:]}]' for p, e in not_add[:2]) or
+           'all stores accumulate', f.loc(not_add[0][1].node) if not_add else f.loc())
+    return not_add
+
+
 def _fast_path_cond(c, oshape, fshape, foff):
     """and(eq(field.shape, out.shape), array_equal(field.offset, [0, 0])) in any order."""
     a = c.single_atom() if isinstance(c, Poly) else None
@@ -169,9 +181,12 @@ def run(chk, repo, tier):
     # ---------------------------------------------------------------- C06-c
     f, paths, oshape, fshape, foff = insert_paths(repo)
     n = 0
+    not_add = insert_accumulates(chk, repo, 'C06-c', (f, paths))
     for p in returns(paths):
         ws = [e for e in p.writes() if e.data.get('how') == 'setitem' and root_sym(e.target) == 'out']
         if len(ws) != 1:
+            if not_add:
+                continue
             raise AnalysisError(f'field.insert: expected exactly one store into out per path, got {len(ws)}')
         key = ws[0].data['key']
         if key == nf.ELLIPSIS:
